@@ -56,7 +56,7 @@ def explicit_first(ctx, crate, crs, tag):
     ctx.ob(F, b.key, "is_explicit=(parent==root)", bool(flag_locals), b.loc(), "the explicit flag is computed by comparing the requiring solvable with VariableId::root()")
     # --- constructions of PossibleDecision
     aggs = [(i, j, s) for i, j, s in b.assigns() if s["r"]["k"] == "agg" and str(s["r"].get("adt", "")).endswith(PD)]
-    ctx.floor(R, "PossibleDecision constructions", len(aggs), 2)
+    ctx.floor(R, "PossibleDecision constructions", len(aggs), 1)
     for i, j, s in aggs:
         r = s["r"]
         ok = False
@@ -113,7 +113,10 @@ def explicit_first(ctx, crate, crs, tag):
             if c.kind == "discr" and c.adt == "std::option::Option" and c.src_place is not None and \
                     "PossibleDecision" in (c.src_place.get("ty") or b.local_ty(c.src_place["l"])):
                 st = c.target("Some")
-                if st is not None and q.edge_dominates(b, c.bb, st, i):
+                # a construction that can be reached, within the same iteration, with an existing best proposal
+                hd = [h for h, body, _ in b.loops() if i in body]
+                if st is not None and (q.edge_dominates(b, c.bb, st, i) or i in b.reachable([st], avoid=hd)) and \
+                        not any(x[0] == i for x in repl):
                     repl.append((i, s, c))
     ctx.floor(R, "replacement of an existing best proposal", len(repl), 1)
     outer = [l for l in for_loops(b, crs) if "requires_clauses" in loop_source_fields(b, l)]
